@@ -398,11 +398,17 @@ class _DataFiles:
     def write_data(self, name, data):
         if self.project.ropefolder is not None:
             file = self._get_file(name)
+            # Write to temporary files and move them into place afterwards, so
+            # that an interrupted save leaves the previous version intact.
             with ExitStack() as cm:
-                output_file = cm.enter_context(open(file.real_path, "wb"))
-                output_file2 = cm.enter_context(open(file.real_path + ".json", "w"))
+                output_file = cm.enter_context(open(file.real_path + ".tmp", "wb"))
+                output_file2 = cm.enter_context(
+                    open(file.real_path + ".json.tmp", "w")
+                )
                 pickle.dump(data, output_file, 2)
                 json.dump(data, output_file2, default=lambda o: o.__getstate__())
+            os.replace(file.real_path + ".tmp", file.real_path)
+            os.replace(file.real_path + ".json.tmp", file.real_path + ".json")
 
     def add_write_hook(self, hook):
         self.hooks.append(hook)
